@@ -1,5 +1,6 @@
 import DdsProofs.AnalyseInv
 import DdsProofs.SigInj
+import DdsProofs.Lru
 /-!
 # A signature determines the plain value (`sig_sound`, code part)
 
@@ -15,7 +16,8 @@ Hypotheses (the *universe* of function versions the theorem talks about):
 * `varsInj`, `argsInj` — `dds_hash` is injective on the values of tracked variables that occur, and on the argument
   values that occur (two separate sets: a variable is never compared with an argument) (C05 proves exactly which
   values collide: `collide_iff`; the generator's pools are collision-free).
-* `noLoads`   — this file covers the load-free fragment (`call`, `callArgs`, `ref`, `keep` items).
+* loads — a body may `dds.load`: the two executions must then start from plain states that agree on the paths the
+  call (transitively) loads; the agreement is preserved (`KeptPres`), so a path produced and then loaded is fine too.
 -/
 namespace Dds
 open List
@@ -35,10 +37,9 @@ structure Code where
 def Fn.code (f : Fn) : Code :=
   ⟨f.name, f.params, f.storePath, f.tag, f.items, f.fails, f.usesExt, f.ws, f.vars.map Prod.fst⟩
 
-def Item.noLoad : Item → Prop
-  | .load _ _ => False
-  | .evalCall _ _ => False
-  | _ => True
+def Item.isEval : Item → Prop
+  | .evalCall _ _ => True
+  | _ => False
 
 /-- the literal arguments written at a call -/
 def Item.hasConst (it : Item) (v : PyVal) : Prop :=
@@ -63,7 +64,8 @@ structure Universe where
   argsInj : ∀ v w, avals v → avals w → canonKF v = canonKF w → v = w
   varsIn : ∀ f, fns f → ∀ nv ∈ f.vars, vals nv.2
   varNames : ∀ f, fns f → (f.vars.map Prod.fst).Nodup
-  noLoads : ∀ f, fns f → ∀ it ∈ f.items, it.noLoad
+  /-- no nested `dds.eval` (such programs are rejected by the analysis anyway: C11) -/
+  noEval : ∀ f, fns f → ∀ it ∈ f.items, ¬ it.isEval
   /-- literal arguments and defaults are values on which `dds_hash` is injective; parameters are plain -/
   constsIn : ∀ f, fns f → ∀ it ∈ f.items, ∀ v, it.hasConst v → avals v
   defaultsIn : ∀ f, fns f → ∀ p ∈ f.params, ∀ d, p.default = some d → avals d
@@ -204,6 +206,20 @@ theorem sig_code (U : Universe) {m : Nat} {W1 W2 : World} {fuel1 fuel2 : Nat} {r
     exact this
   exact ⟨hcode, vars_eq U h1.hvars h2.hvars hnames (U.varNames fn1 hU1) (U.varsIn fn1 hU1) (U.varsIn fn2 hU2) hev, hsubs⟩
 
+/-- … and the paths the two bodies load resolve to the same signatures -/
+theorem sig_deps {m : Nat} {W1 W2 : World} {fuel1 fuel2 : Nat} {refs1 refs2 : Refs}
+    {stack1 stack2 : List String} {fn1 fn2 : Fn} {ctx1 ctx2 : ArgCtx} {fis1 fis2 : FIS} {r1 r2 : Refs}
+    {ev1 ev2 : List (String × Sg)} {io1 io2 : Option Sg} {st1 st2 : VisitSt} {b1 b2 : Sg}
+    {d1 d2 : List (String × Sg)} {ret1 ret2 : Sg}
+    (h1 : AnalyseOk m W1 fuel1 refs1 stack1 fn1 ctx1 fis1 r1 ev1 io1 st1 b1 d1 ret1)
+    (h2 : AnalyseOk m W2 fuel2 refs2 stack2 fn2 ctx2 fis2 r2 ev2 io2 st2 b2 d2 ret2)
+    (hs : fis1.retSig = fis2.retSig) : ∀ p s, (p, s) ∈ d1 ↔ (p, s) ∈ d2 := by
+  rw [h1.retSig, h2.retSig] at hs
+  subst hs
+  obtain ⟨pa1, hpa1⟩ := buildReturnSig_argPairs h1.hret
+  obtain ⟨pa2, hpa2⟩ := buildReturnSig_argPairs h2.hret
+  exact (buildReturnSig_inj _ _ _ _ _ _ _ _ _ _ _ _ pa1 pa2 hpa1 hpa2 (h1.hret.trans h2.hret.symm)).2.2.1
+
 /-! ## Plain execution, one item at a time -/
 
 /-- the result of one item under plain execution (the `let r` of `plainItems`) -/
@@ -224,7 +240,12 @@ def plainItemRes (W : World) (rec : PlainRec) (env : Env) (st : PSt) (results : 
     | none => (.error (.dds .objectNotFound), st)
     | some g => match bindRun g.params (zipArgs results env args rtA) (zipKw results env kwargs rtK) 0 with
       | none => (.error (.exc "TypeError" f), st)
-      | some env' => rec st g env'
+      | some env' =>
+        match rec st g env' with
+        | (.ok v, st') => (.ok v, match g.storePath with
+            | some p => { st' with kept := aset st'.kept p v }
+            | none => st')
+        | r => r
   | .keep path f args kwargs rtA rtK _ =>
     match W.find f with
     | none => (.error (.dds .objectNotFound), st)
@@ -302,7 +323,7 @@ theorem plainItemRes_callArgs (W : World) (rec : PlainRec) (env : Env) (st : PSt
     simp only []
     cases bindRun g.params (zipArgs results env args rtA) (zipKw results env kwargs rtK) 0 with
     | none => rfl
-    | some env' => rfl
+    | some env' => exact fst_keep_update _ _
 
 theorem plainItemRes_keep (W : World) (rec : PlainRec) (env : Env) (st : PSt) (results : List RVal) (path f : String)
     (args kwargs rtA rtK) (l : Nat) :
@@ -392,19 +413,133 @@ theorem next_sig_eq {m : Nat} {W1 W2 : World} {rec1 rec2 : Analyse} {fn1 fn2 : F
   have := (append_inj hfin (by simp [hlen])).2
   simpa using (cons.inj (by simpa using this)).1
 
+/-! ## Loads: the paths an interaction tree reads, agreement of two plain states -/
+
+mutual
+/-- every path loaded by the call or by anything below it -/
+def FIS.allLoads : FIS → List String
+  | .mk _ _ _ subs loads => loads.map Prod.fst ++ FIS.allLoadsL subs
+def FIS.allLoadsL : List FIS → List String
+  | [] => []
+  | f :: fs => FIS.allLoads f ++ FIS.allLoadsL fs
+end
+
+theorem allLoadsL_mem {p : String} : ∀ {fs : List FIS} {f : FIS}, f ∈ fs → p ∈ f.allLoads → p ∈ FIS.allLoadsL fs
+  | g :: gs, f, hm, hp => by
+    simp only [FIS.allLoadsL, mem_append]
+    rcases mem_cons.mp hm with rfl | hm
+    · exact Or.inl hp
+    · exact Or.inr (allLoadsL_mem hm hp)
+
+theorem withPath_allLoads (f : FIS) (p : String) : (f.withPath p).allLoads = f.allLoads := by
+  obtain ⟨n, s, sp, subs, l⟩ := f
+  simp [FIS.withPath, FIS.allLoads, FIS.subs, FIS.loads]
+
+/-- two plain states agree on a set of paths -/
+def KAgree (G : List String) (q1 q2 : PSt) : Prop := ∀ p ∈ G, aget q1.kept p = aget q2.kept p
+
+/-- wherever the states agreed before, they agree after -/
+def KeptPres (q1 q2 r1 r2 : PSt) : Prop := ∀ p, aget q1.kept p = aget q2.kept p → aget r1.kept p = aget r2.kept p
+
+theorem KeptPres.refl (q1 q2 : PSt) : KeptPres q1 q2 q1 q2 := fun _ h => h
+theorem KeptPres.trans {a1 a2 b1 b2 c1 c2 : PSt} (h1 : KeptPres a1 a2 b1 b2) (h2 : KeptPres b1 b2 c1 c2) :
+    KeptPres a1 a2 c1 c2 := fun p h => h2 p (h1 p h)
+theorem KeptPres.agree {G : List String} {q1 q2 r1 r2 : PSt} (h : KeptPres q1 q2 r1 r2) (ha : KAgree G q1 q2) :
+    KAgree G r1 r2 := fun p hp => h p (ha p hp)
+theorem KeptPres.log {q1 q2 r1 r2 : PSt} (h : KeptPres q1 q2 r1 r2) (l1 l2 : List String) :
+    KeptPres { q1 with log := l1 } { q2 with log := l2 } r1 r2 := h
+
+theorem KeptPres.aset {q1 q2 r1 r2 : PSt} (h : KeptPres q1 q2 r1 r2) (p : String) (v : RVal) :
+    KeptPres q1 q2 { r1 with kept := aset r1.kept p v } { r2 with kept := aset r2.kept p v } := by
+  intro x hx
+  by_cases hpx : x = p
+  · subst hpx; simp only [aget_aset_eq]
+  · simp only [aget_aset_ne _ _ _ _ hpx]; exact h x hx
+
+/-! ## Plain execution of a call-like item, value and state -/
+
+/-- the result (value and state) of a call-like item; `kp`: the path of an explicit keep; `df`: a data function records its
+result under its own path -/
+def callRes (W : World) (rec : PlainRec) (st : PSt) (f : String) (pos : List RVal) (kw : List (String × RVal))
+    (kp : Option String) (df : Bool) : PRes :=
+  match W.find f with
+  | none => (.error (.dds .objectNotFound), st)
+  | some g => match bindRun g.params pos kw 0 with
+    | none => (.error (.exc "TypeError" f), st)
+    | some env' =>
+      match rec st g env' with
+      | (.ok v, st') =>
+        (.ok v, match (match kp with | some p => some p | none => if df then g.storePath else none) with
+          | some p => { st' with kept := aset st'.kept p v }
+          | none => st')
+      | r => r
+
+theorem plainItemRes_call' (W : World) (rec : PlainRec) (env : Env) (st : PSt) (results : List RVal) (f : String) (l : Nat) :
+    plainItemRes W rec env st results (.call f l) = callRes W rec st f [] [] none true := by
+  simp only [plainItemRes, callRes]
+  cases W.find f with
+  | none => rfl
+  | some g =>
+    simp only
+    cases bindRun g.params [] [] 0 with
+    | none => rfl
+    | some env' =>
+      simp only
+      cases rec st g env' with
+      | mk r st' => cases r <;> first | rfl | simp
+
+theorem plainItemRes_ref' (W : World) (rec : PlainRec) (env : Env) (st : PSt) (results : List RVal) (f : String) (l : Nat) :
+    plainItemRes W rec env st results (.ref f l) = callRes W rec st f [] [] none true := by
+  simp only [plainItemRes, callRes]
+  cases W.find f with
+  | none => rfl
+  | some g =>
+    simp only
+    cases bindRun g.params [] [] 0 with
+    | none => rfl
+    | some env' =>
+      simp only
+      cases rec st g env' with
+      | mk r st' => cases r <;> first | rfl | simp
+
+theorem plainItemRes_callArgs' (W : World) (rec : PlainRec) (env : Env) (st : PSt) (results : List RVal) (f : String)
+    (args kwargs rtA rtK) (l : Nat) :
+    plainItemRes W rec env st results (.callArgs f args kwargs rtA rtK l) =
+      callRes W rec st f (zipArgs results env args rtA) (zipKw results env kwargs rtK) none true := by
+  simp only [plainItemRes, callRes]
+  cases W.find f with
+  | none => rfl
+  | some g =>
+    simp only
+    cases bindRun g.params (zipArgs results env args rtA) (zipKw results env kwargs rtK) 0 with
+    | none => rfl
+    | some env' =>
+      simp only
+      cases rec st g env' with
+      | mk r st' => cases r <;> rfl
+
+theorem plainItemRes_keep' (W : World) (rec : PlainRec) (env : Env) (st : PSt) (results : List RVal) (path f : String)
+    (args kwargs rtA rtK) (l : Nat) :
+    plainItemRes W rec env st results (.keep path f args kwargs rtA rtK l) =
+      callRes W rec st f (zipArgs results env args rtA) (zipKw results env kwargs rtK) (some path) false := by
+  simp only [plainItemRes, callRes]
+
 /-! ## The theorem -/
 
-/-- `SS fuel1`: the statement for analyses of nesting depth at most `fuel1` in the first world -/
+/-- `SS fuel1`: the statement for analyses of nesting depth at most `fuel1` in the first world: same signature, same
+parameter values, plain states that agree on the loaded paths ⇒ same value, and the states still agree where they did -/
 def SS (U : Universe) (m : Nat) (fuel1 : Nat) : Prop :=
   ∀ (fuel2 : Nat) (W1 W2 : World) (refs1 refs2 : Refs) (stack1 stack2 : List String) (fn1 fn2 : Fn)
     (ctx1 ctx2 : ArgCtx) (env : Env) (fis1 fis2 : FIS) (r1 r2 : Refs) (p1 p2 : PSt),
     U.world W1 → U.world W2 → W1.extVersion = W2.extVersion → U.fns fn1 → U.fns fn2 →
     analyse m W1 fuel1 refs1 stack1 fn1 ctx1 = .ok (fis1, r1) →
     analyse m W2 fuel2 refs2 stack2 fn2 ctx2 = .ok (fis2, r2) →
-    fis1.retSig = fis2.retSig →
-    (plainFn W1 fuel1 p1 fn1 env).1 = (plainFn W2 fuel2 p2 fn2 env).1
+    fis1.retSig = fis2.retSig → KAgree fis1.allLoads p1 p2 →
+    (plainFn W1 fuel1 p1 fn1 env).1 = (plainFn W2 fuel2 p2 fn2 env).1 ∧
+    (∀ v, (plainFn W1 fuel1 p1 fn1 env).1 = .ok v →
+      KeptPres p1 p2 (plainFn W1 fuel1 p1 fn1 env).2 (plainFn W2 fuel2 p2 fn2 env).2)
 
-/-- two analysed calls with equal signatures are calls of functions with the same parameters -/
+/-- two analysed calls with equal signatures are calls of functions with the same code -/
 theorem sig_params (U : Universe) {m : Nat} {W1 W2 : World} {fuel1 fuel2 : Nat} {refs1 refs2 : Refs}
     {stack1 stack2 : List String} {fn1 fn2 : Fn} {ctx1 ctx2 : ArgCtx} {fis1 fis2 : FIS} {r1 r2 : Refs}
     (h1 : analyse m W1 fuel1 refs1 stack1 fn1 ctx1 = .ok (fis1, r1))
@@ -421,126 +556,288 @@ theorem sig_params (U : Universe) {m : Nat} {W1 W2 : World} {fuel1 fuel2 : Nat} 
       have := sig_code U a1 a2 hU1 hU2 hs
       exact ⟨this.1, this.2.1⟩
 
-/-- a call-like item analysed in both worlds with equal signatures has equal plain values -/
-theorem callVal_eq (U : Universe) {m : Nat} {fuel1 fuel2 : Nat} (hSS : SS U m fuel1) {W1 W2 : World}
+/-- a call-like item analysed in both worlds with equal signatures: equal values, agreement preserved -/
+theorem callRes_eq (U : Universe) {m : Nat} {fuel1 fuel2 : Nat} (hSS : SS U m fuel1) {W1 W2 : World}
     (hW1 : U.world W1) (hW2 : U.world W2) (hext : W1.extVersion = W2.extVersion)
     {fn1 fn2 : Fn} {isig1 isig2 : Sg} {stack1 stack2 : List String} {s1 s2 : VisitSt} {f : String}
     {args : List AstArg} {kwargs : List (String × AstArg)} {line : Nat}
     {g1 g2 : Fn} {c1 c2 : Option Sg} {n1 n2 : List (String × Option Sg)} {a b : FIS} {rf1 rf2 : Refs}
     (hc1 : CallStep m W1 (analyse m W1 fuel1) fn1 isig1 stack1 s1 f args kwargs line g1 c1 n1 a rf1)
     (hc2 : CallStep m W2 (analyse m W2 fuel2) fn2 isig2 stack2 s2 f args kwargs line g2 c2 n2 b rf2)
-    (hs : a.retSig = b.retSig) (pos : List RVal) (kw : List (String × RVal)) (p1 p2 : PSt) :
-    callVal W1 (plainFn W1 fuel1) p1 f pos kw = callVal W2 (plainFn W2 fuel2) p2 f pos kw := by
+    (hs : a.retSig = b.retSig) (pos : List RVal) (kw : List (String × RVal)) (kp : Option String) (df : Bool)
+    (q1 q2 : PSt) (hag : KAgree a.allLoads q1 q2) :
+    (callRes W1 (plainFn W1 fuel1) q1 f pos kw kp df).1 = (callRes W2 (plainFn W2 fuel2) q2 f pos kw kp df).1 ∧
+    (∀ v, (callRes W1 (plainFn W1 fuel1) q1 f pos kw kp df).1 = .ok v →
+      KeptPres q1 q2 (callRes W1 (plainFn W1 fuel1) q1 f pos kw kp df).2 (callRes W2 (plainFn W2 fuel2) q2 f pos kw kp df).2) := by
   have hU1 := U.find hW1 hc1.find
   have hU2 := U.find hW2 hc2.find
   have hcode := (sig_params U hc1.sub hc2.sub hU1 hU2 hs).1
   have hpar : g1.params = g2.params := congrArg Code.params hcode
-  simp only [callVal, hc1.find, hc2.find, hpar]
+  have hsp : g1.storePath = g2.storePath := congrArg Code.storePath hcode
+  simp only [callRes, hc1.find, hc2.find, hpar, hsp]
   cases bindRun g2.params pos kw 0 with
-  | none => rfl
-  | some env' => exact hSS fuel2 W1 W2 _ _ _ _ g1 g2 _ _ env' a b _ _ p1 p2 hW1 hW2 hext hU1 hU2 hc1.sub hc2.sub hs
+  | none => exact ⟨rfl, fun v hv => by cases hv⟩
+  | some env' =>
+    obtain ⟨e1, e2⟩ := hSS fuel2 W1 W2 _ _ _ _ g1 g2 _ _ env' a b _ _ q1 q2 hW1 hW2 hext hU1 hU2 hc1.sub hc2.sub hs hag
+    simp only
+    cases hr1 : plainFn W1 fuel1 q1 g1 env' with
+    | mk v1 st1 =>
+      cases hr2 : plainFn W2 fuel2 q2 g2 env' with
+      | mk v2 st2 =>
+        rw [hr1, hr2] at e1 e2
+        simp only at e1 e2
+        subst e1
+        cases v1 with
+        | error e => exact ⟨rfl, fun v hv => by cases hv⟩
+        | ok v =>
+          refine ⟨rfl, fun _ _ => ?_⟩
+          have hp := e2 v rfl
+          simp only
+          cases kp with
+          | some p => exact hp.aset p v
+          | none =>
+            cases df with
+            | false => exact hp
+            | true =>
+              simp only [if_true]
+              cases g2.storePath with
+              | none => exact hp
+              | some p => exact hp.aset p v
 
-/-- the functions already referenced by name have the same plain value in both worlds -/
-def SeenVal (W1 W2 : World) (rec1 rec2 : PlainRec) (seen : List String) : Prop :=
-  ∀ f ∈ seen, ∀ p1 p2, callVal W1 rec1 p1 f [] [] = callVal W2 rec2 p2 f [] []
+/-- the functions already referenced by name in this body: same value in both worlds from any two states that agree on `G` -/
+def SeenVal (W1 W2 : World) (rec1 rec2 : PlainRec) (G : List String) (seen : List String) : Prop :=
+  ∀ f ∈ seen, ∀ q1 q2, KAgree G q1 q2 →
+    (callRes W1 rec1 q1 f [] [] none true).1 = (callRes W2 rec2 q2 f [] [] none true).1 ∧
+    (∀ v, (callRes W1 rec1 q1 f [] [] none true).1 = .ok v →
+      KeptPres q1 q2 (callRes W1 rec1 q1 f [] [] none true).2 (callRes W2 rec2 q2 f [] [] none true).2)
+
+/-- what the lock-step lemma concludes about the items of a body -/
+def ItemsEq (W1 W2 : World) (rec1 rec2 : PlainRec) (env : Env) (q1 q2 : PSt) (results : List RVal) (its : List Item) : Prop :=
+  (plainItems W1 rec1 env q1 results its).1 = (plainItems W2 rec2 env q2 results its).1 ∧
+  (∀ rs, (plainItems W1 rec1 env q1 results its).1 = .ok rs →
+    KeptPres q1 q2 (plainItems W1 rec1 env q1 results its).2 (plainItems W2 rec2 env q2 results its).2)
+
+/-- what is to be shown about an item and the items after it, given the result of the item in both worlds -/
+def ContEq (W1 W2 : World) (rec1 rec2 : PlainRec) (env : Env) (results : List RVal) (its : List Item)
+    (q1 q2 : PSt) (r1 r2 : PRes) : Prop :=
+  (match r1 with
+    | (.ok v, st') => plainItems W1 rec1 env st' (results ++ [v]) its
+    | (.error e, st') => (.error e, st')).1 =
+  (match r2 with
+    | (.ok v, st') => plainItems W2 rec2 env st' (results ++ [v]) its
+    | (.error e, st') => (.error e, st')).1 ∧
+  (∀ rs : List RVal, (match r1 with
+    | (.ok v, st') => plainItems W1 rec1 env st' (results ++ [v]) its
+    | (.error e, st') => (.error e, st')).1 = Except.ok rs →
+    KeptPres q1 q2
+      (match r1 with
+        | (.ok v, st') => plainItems W1 rec1 env st' (results ++ [v]) its
+        | (.error e, st') => (.error e, st')).2
+      (match r2 with
+        | (.ok v, st') => plainItems W2 rec2 env st' (results ++ [v]) its
+        | (.error e, st') => (.error e, st')).2)
 
 theorem cont_eq (W1 W2 : World) (rec1 rec2 : PlainRec) (env : Env) (results : List RVal) (its : List Item)
-    (r1 r2 : PRes) (hr : r1.1 = r2.1)
-    (hk : ∀ v q1 q2, (plainItems W1 rec1 env q1 (results ++ [v]) its).1 = (plainItems W2 rec2 env q2 (results ++ [v]) its).1) :
-    (match r1 with
-      | (.ok v, st') => plainItems W1 rec1 env st' (results ++ [v]) its
-      | (.error e, st') => (.error e, st')).1 =
-    (match r2 with
-      | (.ok v, st') => plainItems W2 rec2 env st' (results ++ [v]) its
-      | (.error e, st') => (.error e, st')).1 := by
-  obtain ⟨v1, q1⟩ := r1
-  obtain ⟨v2, q2⟩ := r2
+    (q1 q2 : PSt) (r1 r2 : PRes) (hr : r1.1 = r2.1) (hp : ∀ v, r1.1 = .ok v → KeptPres q1 q2 r1.2 r2.2)
+    (hk : ∀ v, r1.1 = .ok v → ItemsEq W1 W2 rec1 rec2 env r1.2 r2.2 (results ++ [v]) its) :
+    ContEq W1 W2 rec1 rec2 env results its q1 q2 r1 r2 := by
+  unfold ContEq
+  obtain ⟨v1, a1⟩ := r1
+  obtain ⟨v2, a2⟩ := r2
   simp only at hr
   subst hr
   cases v1 with
-  | ok v => exact hk v q1 q2
-  | error e => rfl
+  | error e => exact ⟨rfl, fun rs h => by cases h⟩
+  | ok v =>
+    simp only at hp hk ⊢
+    obtain ⟨k1, k2⟩ := hk v rfl
+    exact ⟨k1, fun rs h => (hp v rfl).trans (k2 rs h)⟩
 
-/-- **Lock step**: the same items, visited in two worlds with the same final signature list, produce the same
-plain results -/
+theorem itemsEq_cons (W1 W2 : World) (rec1 rec2 : PlainRec) (env : Env) (q1 q2 : PSt) (results : List RVal) (it : Item)
+    (its : List Item)
+    (h : ContEq W1 W2 rec1 rec2 env results its q1 q2 (plainItemRes W1 rec1 env q1 results it) (plainItemRes W2 rec2 env q2 results it)) :
+    ItemsEq W1 W2 rec1 rec2 env q1 q2 results (it :: its) := by
+  unfold ItemsEq
+  rw [plainItems_cons, plainItems_cons]
+  exact h
+
+/-! ## Loads met by the visitor -/
+
+theorem load_inv {m : Nat} {W : World} {rec : Analyse} {fn : Fn} {isig : Sg} {stack : List String}
+    {st st' : VisitSt} {path : String} {l : Nat} (h : visitItem m W rec fn isig stack st (.load path l) = .ok st') :
+    st' = { st with loads := st.loads ++ [path] } := by
+  unfold visitItem at h
+  by_cases hp : pathAbsolute path = true
+  · simp only [hp, Bool.not_true, Bool.false_eq_true, if_false, Except.ok.injEq] at h; exact h.symm
+  · simp [hp] at h
+
+theorem visitItem_loads_grow {m : Nat} {W : World} {rec : Analyse} {fn : Fn} {isig : Sg} {stack : List String}
+    {st st' : VisitSt} {it : Item} (h : visitItem m W rec fn isig stack st it = .ok st') :
+    ∃ d, st'.loads = st.loads ++ d := by
+  cases it with
+  | call f line =>
+    obtain ⟨g, ctx, named, fis, refs, _, rfl⟩ := plain_inv (by simpa [visitItem] using h); exact ⟨[], by simp⟩
+  | callArgs f args kwargs rtA rtK line =>
+    obtain ⟨g, ctx, named, fis, refs, _, rfl⟩ := plain_inv (by simpa [visitItem] using h); exact ⟨[], by simp⟩
+  | ref f line =>
+    rcases ref_inv h with ⟨_, rfl⟩ | ⟨_, g, ctx, named, fis, refs, _, rfl⟩ <;> exact ⟨[], by simp⟩
+  | keep path f args kwargs rtA rtK line =>
+    obtain ⟨g, ctx, named, fis, refs, _, _, rfl⟩ := keep_inv h; exact ⟨[], by simp⟩
+  | load path line => rw [load_inv h]; exact ⟨[path], rfl⟩
+  | evalCall f line => simp [visitItem] at h
+
+theorem visitItems_loads_grow {m : Nat} {W : World} {rec : Analyse} {fn : Fn} {isig : Sg} {stack : List String} :
+    ∀ {its : List Item} {st st' : VisitSt}, visitItems m W rec fn isig stack st its = .ok st' →
+    ∃ d, st'.loads = st.loads ++ d
+  | [], st, st', h => by simp [visitItems] at h; subst h; exact ⟨[], by simp⟩
+  | it :: its, st, st', h => by
+    obtain ⟨t, h1, h2⟩ := visitItems_cons_inv h
+    obtain ⟨d1, e1⟩ := visitItem_loads_grow h1
+    obtain ⟨d2, e2⟩ := visitItems_loads_grow h2
+    exact ⟨d1 ++ d2, by rw [e2, e1, append_assoc]⟩
+
+theorem mem_dedupStr (p : String) : ∀ (l : List String), p ∈ dedupStr l ↔ p ∈ l
+  | [] => by simp [dedupStr]
+  | x :: xs => by
+    simp only [dedupStr, mem_cons, mem_filter, mem_dedupStr p xs, ne_eq, decide_eq_true_eq]
+    constructor
+    · rintro (h | ⟨h, _⟩)
+      · exact Or.inl h
+      · exact Or.inr h
+    · rintro (h | h)
+      · exact Or.inl h
+      · by_cases hx : p = x
+        · exact Or.inl hx
+        · exact Or.inr ⟨h, hx⟩
+
+theorem lookupRefs_fst {refs : Refs} : ∀ {ps : List String} {d : List (String × Sg)}, lookupRefs refs ps = .ok d →
+    d.map Prod.fst = ps
+  | [], d, h => by simp [lookupRefs] at h; subst h; rfl
+  | p :: ps, d, h => by
+    unfold lookupRefs at h
+    cases hg : aget refs p with
+    | none => simp [hg] at h
+    | some s =>
+      simp only [hg] at h
+      obtain ⟨r, hr, h⟩ := bind_ok h
+      simp only [pure, Except.pure, Except.ok.injEq] at h
+      subst h
+      simp [lookupRefs_fst hr]
+
+/-- **Lock step**: the same items, visited in two worlds with the same final signature list, from plain states that agree on
+every path loaded in the body or below it: same results, agreement preserved -/
 theorem lockstep (U : Universe) {m : Nat} {fuel1 fuel2 : Nat} (hSS : SS U m fuel1) {W1 W2 : World}
     (hW1 : U.world W1) (hW2 : U.world W2) (hext : W1.extVersion = W2.extVersion)
-    (fn1 fn2 : Fn) (isig1 isig2 : Sg) (stack1 stack2 : List String) (env : Env) :
-    ∀ (its : List Item), (∀ it ∈ its, it.noLoad) → ∀ (s1 s1' s2 s2' : VisitSt) (results : List RVal) (p1 p2 : PSt),
+    (fn1 fn2 : Fn) (isig1 isig2 : Sg) (stack1 stack2 : List String) (env : Env) (G : List String) :
+    ∀ (its : List Item), (∀ it ∈ its, ¬ it.isEval) → ∀ (s1 s1' s2 s2' : VisitSt) (results : List RVal) (q1 q2 : PSt),
       visitItems m W1 (analyse m W1 fuel1) fn1 isig1 stack1 s1 its = .ok s1' →
       visitItems m W2 (analyse m W2 fuel2) fn2 isig2 stack2 s2 its = .ok s2' →
       s1.inters.length = s2.inters.length → s1.seen = s2.seen →
-      SeenVal W1 W2 (plainFn W1 fuel1) (plainFn W2 fuel2) s1.seen →
+      SeenVal W1 W2 (plainFn W1 fuel1) (plainFn W2 fuel2) G s1.seen →
       s1'.inters.map FIS.retSig = s2'.inters.map FIS.retSig →
-      (plainItems W1 (plainFn W1 fuel1) env p1 results its).1 = (plainItems W2 (plainFn W2 fuel2) env p2 results its).1
-  | [], _, _, _, _, _, _, _, _, _, _, _, _, _, _ => rfl
-  | it :: its, hnl, s1, s1', s2, s2', results, p1, p2, h1, h2, hlen, hseen, hsv, hfin => by
+      (∀ p, p ∈ s1'.loads → p ∈ G) → (∀ p, p ∈ FIS.allLoadsL s1'.inters → p ∈ G) →
+      KAgree G q1 q2 →
+      ItemsEq W1 W2 (plainFn W1 fuel1) (plainFn W2 fuel2) env q1 q2 results its
+  | [], _, _, _, _, _, _, q1, q2, _, _, _, _, _, _, _, _, _ => ⟨rfl, fun _ _ => KeptPres.refl q1 q2⟩
+  | it :: its, hnl, s1, s1', s2, s2', results, q1, q2, h1, h2, hlen, hseen, hsv, hfin, hGl, hGt, hag => by
     obtain ⟨t1, hv1, hr1⟩ := visitItems_cons_inv h1
     obtain ⟨t2, hv2, hr2⟩ := visitItems_cons_inv h2
-    have hnl' : ∀ it ∈ its, it.noLoad := fun x hx => hnl x (mem_cons_of_mem _ hx)
-    rw [plainItems_cons, plainItems_cons]
-    -- the common continuation once this item's FIS `a`, `b` are known
-    have one : ∀ (a b : FIS) (u1 u2 : VisitSt), t1 = u1 → t2 = u2 →
-        u1.inters = s1.inters ++ [a] → u2.inters = s2.inters ++ [b] → u1.seen = u2.seen →
-        SeenVal W1 W2 (plainFn W1 fuel1) (plainFn W2 fuel2) u1.seen →
-        a.retSig = b.retSig ∧ ∀ v q1 q2, (plainItems W1 (plainFn W1 fuel1) env q1 (results ++ [v]) its).1 =
-          (plainItems W2 (plainFn W2 fuel2) env q2 (results ++ [v]) its).1 := by
-      intro a b u1 u2 e1 e2 i1 i2 hs' hsv'
+    have hnl' : ∀ it ∈ its, ¬ it.isEval := fun x hx => hnl x (mem_cons_of_mem _ hx)
+    apply itemsEq_cons
+    -- the rest of the items, from any pair of states that still agree on `G`
+    have rest : ∀ (u1 u2 : VisitSt), t1 = u1 → t2 = u2 → u1.inters.length = u2.inters.length → u1.seen = u2.seen →
+        SeenVal W1 W2 (plainFn W1 fuel1) (plainFn W2 fuel2) G u1.seen →
+        ∀ v (a1 a2 : PSt), KAgree G a1 a2 →
+          ItemsEq W1 W2 (plainFn W1 fuel1) (plainFn W2 fuel2) env a1 a2 (results ++ [v]) its := by
+      intro u1 u2 e1 e2 hl hs' hsv' v a1 a2 ha
       subst e1; subst e2
-      refine ⟨next_sig_eq i1 i2 hr1 hr2 hlen hfin, fun v q1 q2 => ?_⟩
-      exact lockstep U hSS hW1 hW2 hext fn1 fn2 isig1 isig2 stack1 stack2 env its hnl' t1 s1' t2 s2' _ q1 q2 hr1 hr2
-        (by rw [i1, i2]; simp [hlen]) hs' hsv' hfin
+      exact lockstep U hSS hW1 hW2 hext fn1 fn2 isig1 isig2 stack1 stack2 env G its hnl' t1 s1' t2 s2' _ a1 a2 hr1 hr2
+        hl hs' hsv' hfin hGl hGt ha
+    -- a call-like item whose analysed FIS are `a` and `b` (appended as `na`, `nb`)
+    have one : ∀ (a b na nb : FIS) (g1 g2 : Fn) (c1 c2 : Option Sg) (n1 n2 : List (String × Option Sg)) (rf1 rf2 : Refs)
+        (f : String) (args : List AstArg) (kwargs : List (String × AstArg)) (line : Nat)
+        (pos : List RVal) (kw : List (String × RVal)) (kp : Option String) (df : Bool) (seen' : List String),
+        CallStep m W1 (analyse m W1 fuel1) fn1 isig1 stack1 s1 f args kwargs line g1 c1 n1 a rf1 →
+        CallStep m W2 (analyse m W2 fuel2) fn2 isig2 stack2 s2 f args kwargs line g2 c2 n2 b rf2 →
+        t1.inters = s1.inters ++ [na] → t2.inters = s2.inters ++ [nb] → na.retSig = a.retSig → nb.retSig = b.retSig →
+        na.allLoads = a.allLoads → t1.seen = seen' → t2.seen = seen' →
+        SeenVal W1 W2 (plainFn W1 fuel1) (plainFn W2 fuel2) G seen' →
+        ContEq W1 W2 (plainFn W1 fuel1) (plainFn W2 fuel2) env results its q1 q2
+          (callRes W1 (plainFn W1 fuel1) q1 f pos kw kp df) (callRes W2 (plainFn W2 fuel2) q2 f pos kw kp df) := by
+      intro a b na nb g1 g2 c1 c2 n1 n2 rf1 rf2 f args kwargs line pos kw kp df seen' hc1 hc2 i1 i2 hna hnb hla hs1 hs2 hsv'
+      have hsig : a.retSig = b.retSig := by
+        rw [← hna, ← hnb]; exact next_sig_eq i1 i2 hr1 hr2 hlen hfin
+      have hin : na ∈ s1'.inters := by
+        obtain ⟨d, hd⟩ := visitItems_grows hr1
+        rw [hd, i1]; simp
+      have haa : KAgree a.allLoads q1 q2 := fun p hp => hag p (hGt p (allLoadsL_mem hin (hla ▸ hp)))
+      obtain ⟨c1', c2'⟩ := callRes_eq U hSS hW1 hW2 hext hc1 hc2 hsig pos kw kp df q1 q2 haa
+      refine cont_eq W1 W2 _ _ env results its q1 q2 _ _ c1' c2' ?_
+      intro v hv
+      exact rest t1 t2 rfl rfl (by rw [i1, i2]; simp [hlen]) (by rw [hs1, hs2]) (hs1 ▸ hsv') v _ _ ((c2' v hv).agree hag)
     cases it with
     | call f line =>
       obtain ⟨g1, c1, n1, a, rf1, hc1, e1⟩ := plain_inv (by simpa [visitItem] using hv1)
       obtain ⟨g2, c2, n2, b, rf2, hc2, e2⟩ := plain_inv (by simpa [visitItem] using hv2)
-      obtain ⟨hsig, hk⟩ := one a b _ _ e1 e2 rfl rfl hseen hsv
-      refine cont_eq W1 W2 _ _ env results its _ _ ?_ hk
-      rw [plainItemRes_call, plainItemRes_call]
-      exact callVal_eq U hSS hW1 hW2 hext hc1 hc2 hsig _ _ _ _
+      rw [plainItemRes_call', plainItemRes_call']
+      exact one a b a b g1 g2 c1 c2 n1 n2 rf1 rf2 f [] [] line [] [] none true s1.seen hc1 hc2 (by rw [e1]) (by rw [e2]) rfl rfl rfl
+        (by rw [e1]) (by rw [e2, hseen]) hsv
     | callArgs f args kwargs rtA rtK line =>
       obtain ⟨g1, c1, n1, a, rf1, hc1, e1⟩ := plain_inv (by simpa [visitItem] using hv1)
       obtain ⟨g2, c2, n2, b, rf2, hc2, e2⟩ := plain_inv (by simpa [visitItem] using hv2)
-      obtain ⟨hsig, hk⟩ := one a b _ _ e1 e2 rfl rfl hseen hsv
-      refine cont_eq W1 W2 _ _ env results its _ _ ?_ hk
-      rw [plainItemRes_callArgs, plainItemRes_callArgs]
-      exact callVal_eq U hSS hW1 hW2 hext hc1 hc2 hsig _ _ _ _
+      rw [plainItemRes_callArgs', plainItemRes_callArgs']
+      exact one a b a b g1 g2 c1 c2 n1 n2 rf1 rf2 f args kwargs line _ _ none true s1.seen hc1 hc2 (by rw [e1]) (by rw [e2]) rfl rfl rfl
+        (by rw [e1]) (by rw [e2, hseen]) hsv
     | keep path f args kwargs rtA rtK line =>
       obtain ⟨g1, c1, n1, a, rf1, hc1, _, e1⟩ := keep_inv hv1
       obtain ⟨g2, c2, n2, b, rf2, hc2, _, e2⟩ := keep_inv hv2
-      obtain ⟨hsig, hk⟩ := one (a.withPath path) (b.withPath path) _ _ e1 e2 rfl rfl hseen hsv
-      refine cont_eq W1 W2 _ _ env results its _ _ ?_ hk
-      rw [plainItemRes_keep, plainItemRes_keep]
-      exact callVal_eq U hSS hW1 hW2 hext hc1 hc2 hsig _ _ _ _
+      rw [plainItemRes_keep', plainItemRes_keep']
+      exact one a b (a.withPath path) (b.withPath path) g1 g2 c1 c2 n1 n2 rf1 rf2 f args kwargs line _ _ (some path) false s1.seen
+        hc1 hc2 (by rw [e1]) (by rw [e2]) rfl rfl (withPath_allLoads a path) (by rw [e1]) (by rw [e2, hseen]) hsv
     | ref f line =>
+      rw [plainItemRes_ref', plainItemRes_ref']
       rcases ref_inv hv1 with ⟨hin1, e1⟩ | ⟨hnot1, g1, c1, n1, a, rf1, hc1, e1⟩
       · rcases ref_inv hv2 with ⟨_, e2⟩ | ⟨hnot2, _⟩
-        · -- already referenced in this body: not analysed again, the value is the one of the first reference
-          rw [e1] at hr1; rw [e2] at hr2
-          refine cont_eq W1 W2 _ _ env results its _ _ ?_ ?_
-          · rw [plainItemRes_ref, plainItemRes_ref]; exact hsv f hin1 _ _
-          · intro v q1 q2
-            exact lockstep U hSS hW1 hW2 hext fn1 fn2 isig1 isig2 stack1 stack2 env its hnl' s1 s1' s2 s2' _ q1 q2 hr1 hr2
-              hlen hseen hsv hfin
+        · -- already referenced in this body: not analysed again
+          obtain ⟨c1', c2'⟩ := hsv f hin1 q1 q2 hag
+          refine cont_eq W1 W2 _ _ env results its q1 q2 _ _ c1' c2' ?_
+          intro v hv
+          exact rest s1 s2 e1 e2 hlen hseen hsv v _ _ ((c2' v hv).agree hag)
         · exact absurd (hseen ▸ hin1) hnot2
       · rcases ref_inv hv2 with ⟨hin2, _⟩ | ⟨_, g2, c2, n2, b, rf2, hc2, e2⟩
         · exact absurd (hseen ▸ hin2) hnot1
         · have hsig : a.retSig = b.retSig := by
-            subst e1; subst e2
-            exact next_sig_eq (a := a) (b := b) rfl rfl hr1 hr2 hlen hfin
-          have hval : ∀ p1 p2, callVal W1 (plainFn W1 fuel1) p1 f [] [] = callVal W2 (plainFn W2 fuel2) p2 f [] [] :=
-            fun p1 p2 => callVal_eq U hSS hW1 hW2 hext hc1 hc2 hsig _ _ _ _
-          have hsv' : SeenVal W1 W2 (plainFn W1 fuel1) (plainFn W2 fuel2) (f :: s1.seen) := by
-            intro f' hf' p1 p2
-            rcases mem_cons.mp hf' with h | h
-            · subst h; exact hval p1 p2
-            · exact hsv f' h p1 p2
-          obtain ⟨_, hk⟩ := one a b _ _ e1 e2 rfl rfl (by simp [hseen]) hsv'
-          refine cont_eq W1 W2 _ _ env results its _ _ ?_ hk
-          rw [plainItemRes_ref, plainItemRes_ref]
-          exact hval _ _
-    | load path line => exact absurd (hnl _ mem_cons_self) (by simp [Item.noLoad])
-    | evalCall f line => exact absurd (hnl _ mem_cons_self) (by simp [Item.noLoad])
+            have i1 : t1.inters = s1.inters ++ [a] := by rw [e1]
+            have i2 : t2.inters = s2.inters ++ [b] := by rw [e2]
+            exact next_sig_eq i1 i2 hr1 hr2 hlen hfin
+          have hin : a ∈ s1'.inters := by
+            obtain ⟨d, hd⟩ := visitItems_grows hr1
+            rw [hd, e1]; simp
+          have hsv' : SeenVal W1 W2 (plainFn W1 fuel1) (plainFn W2 fuel2) G (f :: s1.seen) := by
+            intro f' hf' a1 a2 ha
+            rcases mem_cons.mp hf' with rfl | h
+            · exact callRes_eq U hSS hW1 hW2 hext hc1 hc2 hsig [] [] none true a1 a2
+                (fun p hp => ha p (hGt p (allLoadsL_mem hin hp)))
+            · exact hsv f' h a1 a2 ha
+          exact one a b a b g1 g2 c1 c2 n1 n2 rf1 rf2 f [] [] line [] [] none true (f :: s1.seen) hc1 hc2 (by rw [e1]) (by rw [e2])
+            rfl rfl rfl (by rw [e1]) (by rw [e2, hseen]) hsv'
+    | load path line =>
+      have e1 := load_inv hv1
+      have e2 := load_inv hv2
+      have hpG : path ∈ G := by
+        obtain ⟨d, hd⟩ := visitItems_loads_grow hr1
+        apply hGl
+        rw [hd, e1]; simp
+      have hk := hag path hpG
+      unfold ContEq
+      simp only [plainItemRes, hk]
+      cases aget q2.kept path with
+      | none => exact ⟨rfl, fun rs h => by cases h⟩
+      | some v =>
+        simp only
+        obtain ⟨k1, k2⟩ := rest t1 t2 rfl rfl (by rw [e1, e2]; exact hlen) (by rw [e1, e2]; exact hseen) (by rw [e1]; exact hsv) v q1 q2 hag
+        exact ⟨k1, k2⟩
+    | evalCall f line => exact absurd (by simp [Item.isEval]) (hnl _ mem_cons_self)
 
 def bodyOutcome (W : World) (fn : Fn) (env : Env) : Except XErr (List RVal) → Except XErr RVal
   | .error e => .error e
@@ -560,6 +857,22 @@ theorem plainFn_succ_fst (W : World) (fuel : Nat) (st : PSt) (fn : Fn) (env : En
     simp only [bodyOutcome]
     cases fn.fails <;> rfl
 
+theorem plainFn_succ_snd (W : World) (fuel : Nat) (st : PSt) (fn : Fn) (env : Env) :
+    (plainFn W (fuel + 1) st fn env).2 =
+      (plainItems W (plainFn W fuel) env { st with log := st.log ++ [fn.name] } [] fn.items).2 := by
+  simp only [plainFn]
+  generalize plainItems W (plainFn W fuel) env { st with log := st.log ++ [fn.name] } [] fn.items = r
+  obtain ⟨v, q⟩ := r
+  cases v with
+  | error e => rfl
+  | ok results => simp only; cases fn.fails <;> rfl
+
+theorem bodyOutcome_ok {W : World} {fn : Fn} {env : Env} {r : Except XErr (List RVal)} {v : RVal}
+    (h : bodyOutcome W fn env r = .ok v) : ∃ rs, r = .ok rs := by
+  cases r with
+  | error e => simp [bodyOutcome] at h
+  | ok rs => exact ⟨rs, rfl⟩
+
 theorem bodyOutcome_congr {W1 W2 : World} {fn1 fn2 : Fn} (hc : fn1.code = fn2.code) (hv : fn1.vars = fn2.vars)
     (hext : W1.extVersion = W2.extVersion) (env : Env) (r : Except XErr (List RVal)) :
     bodyOutcome W1 fn1 env r = bodyOutcome W2 fn2 env r := by
@@ -574,14 +887,15 @@ theorem bodyOutcome_congr {W1 W2 : World} {fn1 fn2 : Fn} (hc : fn1.code = fn2.co
   | ok results => simp only [bodyOutcome, bodyValue, h1, h2, h3, h4, h5, h6, hv, hext]
 
 /-- **`sig_sound` (code part).** Two calls — in any two versions of the code from the universe — that the analysis
-gives the same return signature, run on the same parameter values, return the same value (or raise the same
-exception) under plain execution. No bound on the size or depth of the programs. -/
+gives the same return signature, run on the same parameter values from plain states that agree on the paths they load,
+return the same value (or raise the same exception) under plain execution, and the states go on agreeing wherever they
+did. No bound on the size or depth of the programs. -/
 theorem sig_sound (U : Universe) (m : Nat) : ∀ fuel1, SS U m fuel1
   | 0 => by
     intro fuel2 W1 W2 refs1 refs2 stack1 stack2 fn1 fn2 ctx1 ctx2 env fis1 fis2 r1 r2 p1 p2 _ _ _ _ _ h1
     exact absurd h1 analyse_zero
   | k1 + 1 => by
-    intro fuel2 W1 W2 refs1 refs2 stack1 stack2 fn1 fn2 ctx1 ctx2 env fis1 fis2 r1 r2 p1 p2 hW1 hW2 hext hU1 hU2 h1 h2 hs
+    intro fuel2 W1 W2 refs1 refs2 stack1 stack2 fn1 fn2 ctx1 ctx2 env fis1 fis2 r1 r2 p1 p2 hW1 hW2 hext hU1 hU2 h1 h2 hs hag
     cases fuel2 with
     | zero => exact absurd h2 analyse_zero
     | succ k2 =>
@@ -590,12 +904,25 @@ theorem sig_sound (U : Universe) (m : Nat) : ∀ fuel1, SS U m fuel1
       obtain ⟨hcode, hvars, hsubs⟩ := sig_code U a1 a2 hU1 hU2 hs
       have hitems : fn1.items = fn2.items := congrArg Code.items hcode
       have hname : fn1.name = fn2.name := congrArg Code.name hcode
-      rw [plainFn_succ_fst, plainFn_succ_fst, bodyOutcome_congr hcode hvars hext]
-      congr 1
       have hv2 := a2.hvisit
       rw [← hitems] at hv2
-      rw [← hitems]
-      exact lockstep U (sig_sound U m k1) hW1 hW2 hext fn1 fn2 _ _ stack1 stack2 env fn1.items (U.noLoads fn1 hU1)
-        _ st1 _ st2 [] _ _ a1.hvisit hv2 rfl rfl (fun f hf => absurd hf (by simp)) hsubs
+      -- the loads of the tree: those of the body and those of the calls below
+      have hall : fis1.allLoads = d1.map Prod.fst ++ FIS.allLoadsL st1.inters := by rw [a1.hfis]; rfl
+      have hGl : ∀ p, p ∈ st1.loads → p ∈ fis1.allLoads := by
+        intro p hp
+        rw [hall, lookupRefs_fst a1.hdeps]
+        exact mem_append_left _ ((mem_dedupStr p _).mpr hp)
+      have hGt : ∀ p, p ∈ FIS.allLoadsL st1.inters → p ∈ fis1.allLoads := by
+        intro p hp; rw [hall]; exact mem_append_right _ hp
+      have hls := lockstep U (sig_sound U m k1) hW1 hW2 hext fn1 fn2 _ _ stack1 stack2 env fis1.allLoads fn1.items
+        (U.noEval fn1 hU1) _ st1 _ st2 [] { p1 with log := p1.log ++ [fn1.name] } { p2 with log := p2.log ++ [fn2.name] }
+        a1.hvisit hv2 rfl rfl (fun f hf => absurd hf (by simp)) hsubs hGl hGt hag
+      obtain ⟨l1, l2⟩ := hls
+      rw [plainFn_succ_fst, plainFn_succ_fst, plainFn_succ_snd, plainFn_succ_snd, bodyOutcome_congr hcode hvars hext,
+        ← hitems]
+      refine ⟨by rw [l1], ?_⟩
+      intro v hv
+      obtain ⟨rs, hrs⟩ := bodyOutcome_ok hv
+      exact l2 rs hrs
 
 end Dds
